@@ -17,6 +17,7 @@ mod c05;
 mod c06;
 mod c11;
 mod c13;
+mod c15;
 
 use engine::Ctx;
 
@@ -101,6 +102,8 @@ fn main() {
         ("C11", Some(p)) => c11::replay(&ctx, p),
         ("C13", None) => c13::run(&ctx),
         ("C13", Some(p)) => c13::replay(&ctx, p),
+        ("C15", None) => c15::run(&ctx),
+        ("C15", Some(p)) => c15::replay(&ctx, p),
         ("C16", None) => c16::run(&ctx),
         ("C16", Some(p)) => c16::replay(&ctx, p),
         _ => {
